@@ -600,7 +600,7 @@ def rule_GC(F, R):
     else:
         c = cfg_of(b)
         fetchers = {roles.norm(x) for x in roles.git_cmd_fns(F, "fetch")}
-        rr = [(i, t) for i, t in c.calls() if any(roles.norm(n_) in fetchers for n_ in call_names(t))]
+        rr = [(i, t) for i, t in c.calls() if any(_cone_has(F, n_, fetchers) for n_ in call_names(t))]
         sites = agg_sites(c, "GetVersionResult", "NoSuchVersion")
         if not sites or not rr:
             R.missing("GC", "NoSuchVersion construction / reset_to_remote call in git get_child_version")
@@ -707,9 +707,11 @@ def rule_GC3(F, R):
                 changed = True
     R.info("GC3", "functions that can return with the clone reset to the remote and the cache not reloaded: %s" % ", ".join(sorted(dirty)))
     n = 0
+    nfetch = 0
     for (be, name), b in sorted(ms.items()):
         if be != "git":
             continue
+        nfetch += len([1 for (_i, t) in cfg_of(b).calls() if any(_cone_has(F, n_, fetchers) for n_ in call_names(t))])
         bad, allc = stale_returns(b, dirty)
         badi = {i for i, _t in bad}
         for (i, t) in allc:
@@ -718,7 +720,7 @@ def rule_GC3(F, R):
                 R.violation("GC3", b["owner_fn"], "fetch-without-meta-reload:" + roles.norm(t.get("callee") or "").split("::")[-1], "%s resets the clone to the remote at %s and can return without reloading the cached latest version: a later add_version on the now stale latest is accepted and gives that parent a second child" % (name, loc(t["sp"])), where(b, i))
             else:
                 R.ok("GC3", "%s: reset-to-remote followed by meta reload on every path" % name, where(b, i))
-    R.floor("GC3", "reset-to-remote sites in the git backend's Server methods", n, 6)
+    R.floor("GC3", "calls in the git backend's Server methods that reach the fetch", nfetch, 5)
 
 
 def _result_arms(c, i):
@@ -831,12 +833,17 @@ def rule_GC4(F, R):
         return res
 
     c = cfg_of(b)
-    dsc = {i for i, t in c.calls() if any(_cone_has(F, n_, discarders) for n_ in call_names(t))}
+    fl_b = flow_of(b)
+
+    def direct_hard_reset(t):
+        return any("--hard" in (sv or "") for a in t["args"] if ("c" in a or "m" in a) for sv in const_strs(fl_b.slice_operand(a, through_all_calls=False), F))
+    callee_disc = discarders - {roles.norm(b["owner_fn"])}
+    dsc = {i for i, t in c.calls() if any(_cone_has(F, n_, callee_disc) for n_ in call_names(t)) or direct_hard_reset(t)}
     rld = {i for i, t in c.calls() if any(roles.norm(n_).endswith("read_meta") or _cone_has(F, n_, loaders) for n_ in call_names(t))}
     n = 0
     for (i, t) in c.calls():
         names = [roles.norm(x) for x in call_names(t)]
-        if not any(writes_tree(x) for x in names) or any(_cone_has(F, x, discarders | fetchers) for x in names):
+        if not any(writes_tree(x) for x in names) or any(_cone_has(F, x, callee_disc | fetchers) for x in names) or i in dsc:
             continue
         n += 1
         arms = _result_arms(c, i)
@@ -876,11 +883,12 @@ def rule_GC4(F, R):
             if s not in rld:
                 r |= c.reachable(s, removed=rld)
         arms = _result_arms(c, i)
+        later_q = {k for k in c.reach if c.term(k) and c.term(k)["k"] == "call" and any(x.endswith("FromResidual::from_residual") for x in call_names(c.term(k)))}
         if arms:
             r = set()
             for s in arms[0]:
                 if s not in rld:
-                    r |= c.reachable(s, removed=rld)
+                    r |= c.reachable(s, removed=rld | later_q)
         if any(k in r for k in c.exits()):
             R.violation("GC4", b["owner_fn"], "discard-without-meta-reload", "add_version discards the uncommitted files but keeps the advanced cached latest version", where(b, i))
         else:
